@@ -898,6 +898,12 @@ class Engine:
             for path, progress in self.front.items()
             if path in self.process_paths}
 
+    def _advance_quiet_paths(self, quiet_paths: list) -> None:
+        '''Bring quiet processes, which have no update, to global time.'''
+        for quiet in quiet_paths:
+            self.front[quiet]['time'] = self.global_time
+            self.front[quiet]['update'] = {}
+
     def run_for(
             self,
             interval: float,
@@ -988,12 +994,10 @@ class Engine:
 
             # apply updates based on process times in self.front
             if full_step == math.inf:
-                # no processes ran, jump to next process
-                next_event = end_time
-                for path in self.front.keys():
-                    if self.front[path]['time'] < next_event:
-                        next_event = self.front[path]['time']
-                self.global_time = next_event
+                # no process ran and none has an update in flight, so
+                # nothing can happen before the end of the interval
+                self.global_time = end_time
+                self._advance_quiet_paths(quiet_paths)
 
             elif self.global_time + full_step <= end_time:
                 # at least one process ran within the interval
@@ -1033,6 +1037,7 @@ class Engine:
             else:
                 # all processes have run past the interval
                 self.global_time = end_time
+                self._advance_quiet_paths(quiet_paths)
 
             if force_complete and self.global_time == end_time:
                 force_complete = False
